@@ -32,22 +32,22 @@ Qed.
 Definition oz (o : option Z) : Z := match o with Some x => x | None => 0 end.
 
 Record tinv (par : tpar) (s : tstate) : Prop := {
-  i_now : 0 <= now s /\ t_h s <= now s;
-  i_ctx0 : uctx (us s) = false -> t_ctx s = None /\ (has_ctx (pu par) = true -> now s <= pC par + psig par);
-  i_ctx1 : uctx (us s) = true -> t_ctx s <> None /\ pC par <= oz (t_ctx s) <= pC par + psig par /\ oz (t_ctx s) <= now s;
-  i_sel1 : uh (us s) = HSel1 -> uctx (us s) = true -> now s <= oz (t_ctx s) + psig par;
-  i_sig : uh (us s) = HSig -> pC par <= t_h s <= pC par + 2 * psig par /\ now s <= t_h s + psig par;
-  i_tsig : t_sig s <> None -> pC par <= oz (t_sig s) <= pC par + 3 * psig par /\ oz (t_sig s) <= now s;
-  i_after : uh (us s) = HAfterSig -> pC par <= t_h s <= pC par + 3 * psig par /\ now s <= t_h s + psig par;
-  i_tarm : t_arm s <> None -> pC par <= oz (t_arm s) <= pC par + 4 * psig par /\ oz (t_arm s) <= now s /\ 0 < pK par;
-  i_tm0 : utm (us s) = TNone -> t_arm s = None /\ t_fire s = None;
-  i_tm1 : utm (us s) = TArmed -> t_arm s <> None /\ t_fire s = None /\ now s <= oz (t_arm s) + pK par + psig par;
-  i_tm2 : utm (us s) = TFired -> t_arm s <> None /\ t_fire s <> None /\
-          oz (t_arm s) + pK par <= oz (t_fire s) <= oz (t_arm s) + pK par + psig par /\ oz (t_fire s) <= now s;
-  i_sel2 : uh (us s) = HSel2 -> utm (us s) <> TNone /\ (utm (us s) = TFired -> now s <= oz (t_fire s) + psig par);
-  i_hkill : uh (us s) = HKill -> utm (us s) = TFired /\ oz (t_fire s) <= t_h s <= oz (t_fire s) + psig par /\ now s <= t_h s + psig par;
+  i_now : 0 <= now s /\ at_h s <= now s;
+  i_ctx0 : uctx (us s) = false -> at_ctx s = None /\ (has_ctx (pu par) = true -> now s <= pC par + psig par);
+  i_ctx1 : uctx (us s) = true -> at_ctx s <> None /\ pC par <= oz (at_ctx s) <= pC par + psig par /\ oz (at_ctx s) <= now s;
+  i_sel1 : uh (us s) = HSel1 -> uctx (us s) = true -> now s <= oz (at_ctx s) + psig par;
+  i_sig : uh (us s) = HSig -> pC par <= at_h s <= pC par + 2 * psig par /\ now s <= at_h s + psig par;
+  i_tsig : at_sig s <> None -> pC par <= oz (at_sig s) <= pC par + 3 * psig par /\ oz (at_sig s) <= now s;
+  i_after : uh (us s) = HAfterSig -> pC par <= at_h s <= pC par + 3 * psig par /\ now s <= at_h s + psig par;
+  i_tarm : at_arm s <> None -> pC par <= oz (at_arm s) <= pC par + 4 * psig par /\ oz (at_arm s) <= now s /\ 0 < pK par;
+  i_tm0 : utm (us s) = TNone -> at_arm s = None /\ at_fire s = None;
+  i_tm1 : utm (us s) = TArmed -> at_arm s <> None /\ at_fire s = None /\ now s <= oz (at_arm s) + pK par + psig par;
+  i_tm2 : utm (us s) = TFired -> at_arm s <> None /\ at_fire s <> None /\
+          oz (at_arm s) + pK par <= oz (at_fire s) <= oz (at_arm s) + pK par + psig par /\ oz (at_fire s) <= now s;
+  i_sel2 : uh (us s) = HSel2 -> utm (us s) <> TNone /\ (utm (us s) = TFired -> now s <= oz (at_fire s) + psig par);
+  i_hkill : uh (us s) = HKill -> utm (us s) = TFired /\ oz (at_fire s) <= at_h s <= oz (at_fire s) + psig par /\ now s <= at_h s + psig par;
   i_pre : match uh (us s) with HSel1 | HSig | HSendNil | HAfterSig => utm (us s) = TNone | _ => True end;
-  i_tkill : t_kill s <> None -> pC par + pK par <= oz (t_kill s) <= pC par + pK par + 7 * psig par /\ oz (t_kill s) <= now s
+  i_tkill : at_kill s <> None -> pC par + pK par <= oz (at_kill s) <= pC par + pK par + 7 * psig par /\ oz (at_kill s) <= now s
 }.
 
 Lemma tinv_init par : wf_tpar par -> tinv par tinit.
@@ -62,17 +62,17 @@ Ltac ob_tac := unfold obligations, opt_list; cbn zeta; rewrite !in_app_iff;
 
 Lemma ob_ctx par s : has_ctx (pu par) = true -> uctx (us s) = false -> In (pC par + psig par) (obligations par s).
 Proof. intros H1 H2. ob_tac. Qed.
-Lemma ob_sel1 par s tc : uh (us s) = HSel1 -> uctx (us s) = true -> t_ctx s = Some tc -> In (tc + psig par) (obligations par s).
+Lemma ob_sel1 par s tc : uh (us s) = HSel1 -> uctx (us s) = true -> at_ctx s = Some tc -> In (tc + psig par) (obligations par s).
 Proof. intros H1 H2 H3. ob_tac. Qed.
-Lemma ob_hsig par s : uh (us s) = HSig -> In (t_h s + psig par) (obligations par s).
+Lemma ob_hsig par s : uh (us s) = HSig -> In (at_h s + psig par) (obligations par s).
 Proof. intros H1. ob_tac. Qed.
-Lemma ob_hafter par s : uh (us s) = HAfterSig -> In (t_h s + psig par) (obligations par s).
+Lemma ob_hafter par s : uh (us s) = HAfterSig -> In (at_h s + psig par) (obligations par s).
 Proof. intros H1. ob_tac. Qed.
-Lemma ob_hkill par s : uh (us s) = HKill -> In (t_h s + psig par) (obligations par s).
+Lemma ob_hkill par s : uh (us s) = HKill -> In (at_h s + psig par) (obligations par s).
 Proof. intros H1. ob_tac. Qed.
-Lemma ob_arm par s ta : utm (us s) = TArmed -> t_arm s = Some ta -> In (ta + pK par + psig par) (obligations par s).
+Lemma ob_arm par s ta : utm (us s) = TArmed -> at_arm s = Some ta -> In (ta + pK par + psig par) (obligations par s).
 Proof. intros H1 H2. ob_tac. Qed.
-Lemma ob_sel2 par s tf : uh (us s) = HSel2 -> utm (us s) = TFired -> t_fire s = Some tf -> In (tf + psig par) (obligations par s).
+Lemma ob_sel2 par s tf : uh (us s) = HSel2 -> utm (us s) = TFired -> at_fire s = Some tf -> In (tf + psig par) (obligations par s).
 Proof. intros H1 H2 H3. ob_tac. Qed.
 
 Lemma oz_some o : o <> None -> o = Some (oz o).
@@ -84,7 +84,7 @@ Proof.
   assert (D0 : 0 <= d) by (unfold can_delay in Hd; apply andb_true_iff in Hd as [Hd _]; now apply Z.leb_le).
   pose proof (fun dl => can_delay_bound par s d dl Hd) as OB.
   destruct I as [Inow I0 I1 Isel1 Isig Itsig Iafter Itarm Itm0 Itm1 Itm2 Isel2 Ihk Ipre Itk].
-  constructor; cbn [advance us now t_h t_ctx t_exit t_wrecv t_sig t_arm t_fire t_kill t_ret].
+  constructor; cbn [advance us now at_h at_ctx at_exit at_wrecv at_sig at_arm at_fire at_kill at_ret].
   - lia.
   - intro E. destruct (I0 E) as [A B]. split; [exact A|]. intro Hc. destruct (OB _ (ob_ctx par s Hc E)). lia.
   - intro E. destruct (I1 E) as (A & B & C). repeat split; try assumption; lia.
@@ -129,9 +129,9 @@ Proof.
   destruct (time_guard par l s) eqn:Eg; [|discriminate].
   destruct (ustep (pu par) l (us s)) as [u'|] eqn:Eu; [|discriminate]. injection E as <-.
   destruct I as [Inow I0 I1 Isel1 Isig Itsig Iafter Itarm Itm0 Itm1 Itm2 Isel2 Ihk Ipre Itk].
-  destruct s as [u n th tc te tw ts ta tf tk tr]. cbn [us now t_h t_ctx t_exit t_wrecv t_sig t_arm t_fire t_kill t_ret] in *.
+  destruct s as [u n th tc te tw ts ta tf tk tr]. cbn [us now at_h at_ctx at_exit at_wrecv at_sig at_arm at_fire at_kill at_ret] in *.
   destruct u as [w h pr cx tm ir kl se sn rc]. cbn [uw uh upr uctx utm uintr ukil usigerr usent urecv] in *.
-  destruct l; cbn [time_guard us now t_h t_ctx t_exit t_wrecv t_sig t_arm t_fire t_kill t_ret] in Eg; inv_ustep Eu;
+  destruct l; cbn [time_guard us now at_h at_ctx at_exit at_wrecv at_sig at_arm at_fire at_kill at_ret] in Eg; inv_ustep Eu;
     cbn [uw uh upr uctx utm uintr ukil usigerr usent urecv] in *;
     repeat match type of Eg with context [match ?x with _ => _ end] => destruct x eqn:? end; try discriminate;
     repeat match goal with H : _ && _ = true |- _ => apply andb_true_iff in H; destruct H end;
@@ -139,7 +139,7 @@ Proof.
     repeat match goal with H : (_ <=? _) = true |- _ => apply Z.leb_le in H end;
     subst; cbn iota in Ipre; try (match type of Ipre with _ = TNone => subst end);
     cbn [stamp set_w set_h set_pr set_tm is_after_sig is_armed uw uh upr uctx utm uintr ukil usigerr usent urecv];
-    constructor; cbn [us now t_h t_ctx t_exit t_wrecv t_sig t_arm t_fire t_kill t_ret uw uh upr uctx utm uintr ukil usigerr usent urecv oz set_w set_h set_pr set_tm is_armed is_after_sig];
+    constructor; cbn [us now at_h at_ctx at_exit at_wrecv at_sig at_arm at_fire at_kill at_ret uw uh upr uctx utm uintr ukil usigerr usent urecv oz set_w set_h set_pr set_tm is_armed is_after_sig];
     try solve [fin].
   all: try solve [destruct ta; [|discriminate]; cbn [oz] in *; apply Z.leb_le in Eg; fin].
   all: try solve [destruct h; cbn iota in *; try exact I; discriminate].
